@@ -272,7 +272,8 @@ FragSort(c) == CASE CaseCtx(c) = "module" -> "mod" [] CaseCtx(c) = "behavior" ->
 \* ---------------------------------------------------------------- as-implemented deviations
 \* masks: fstr-literal-value = value and extent of the literal parts of an f-string unconstrained;
 \* fstr-literal = the literal parts may also be missing, and a replacement field with a format spec
-\* may carry conversion 'r'.  (Column offsets are not part of the property -- it promises the tree
+\* may carry conversion 'r'; star-annotation = an annotation `*T` of a starred parameter may be missing.
+\* (Column offsets are not part of the property -- it promises the tree
 \* and the line numbers -- so differences in columns only are don't-cares of the harness.)
 \* (known findings: the ideal above is what the property demands; each deviation has a trigger
 \* predicate over the case and a description of what the implementation does instead, which the
@@ -286,11 +287,17 @@ ElseChain(n) == n.c = "IfExp" /\ n.a[3].c \in {"IfExp", "Lambda"}
 NameOnlyTarget(n) == \/ (n.c = "AnnAssign" /\ n.a[1].c = "Name")
                      \/ n.c = "TypeAlias"
                      \/ n.c = "NamedExpr"
+\* an empty tuple / list used as a target (`for () in x`, `[] = x`, `del ()`)
+EmptyTarget(n) == n.c \in {"Tuple", "List"} /\ n.a[1] = <<>> /\ n.a[2].c \in {"Store", "Del"}
+\* `def f(*a: *T)`: the annotation of the starred parameter is an unpacking
+StarAnnotation(n) == n.c = "arg" /\ n.a[2] # <<>> /\ n.a[2][1].c = "Starred"
 Deviations(c, ns) ==
   LET Has(P(_)) == \E i \in 1..Len(ns) : P(ns[i]) IN
   (IF Feat(c, "fstr-bang") /\ Has(ExplicitConv) THEN {[key |-> "fstring-conversion-crash", outcome |-> "crash:AttributeError", mask |-> ""]} ELSE {}) \cup
   (IF Feat(c, "fstr-escape") /\ Has(IsJS) THEN {[key |-> "fstring-escape-not-decoded", outcome |-> "", mask |-> "fstr-literal-value"]} ELSE {}) \cup
   (IF Feat(c, "fstr-debug") /\ Has(IsFV) THEN {[key |-> "fstring-debug-text-lost", outcome |-> "", mask |-> "fstr-literal"]} ELSE {}) \cup
+  (IF Has(EmptyTarget) THEN {[key |-> "empty-target-elts-none", outcome |-> "crash:TypeError", mask |-> ""]} ELSE {}) \cup
+  (IF Has(StarAnnotation) THEN {[key |-> "star-annotation-lost", outcome |-> "", mask |-> "star-annotation"]} ELSE {}) \cup
   (IF Has(ElseChain) THEN {[key |-> "ternary-else-chain", outcome |-> "reject", mask |-> ""]} ELSE {}) \cup
   \* a behaviour keeps its local variables on the behaviour object; an annotated assignment, a `type`
   \* statement or a walrus binding such a variable is compiled to a tree that compile() refuses
